@@ -1,7 +1,7 @@
 import Spok.Judge.Find
 /-! oracle driver for the find engine (C17)
 
-case:  `L <k₀k₁…kₙ> S <i> T <stop>`
+case:  `L <k₀k₁…kₙ> S <i> T <stop> [LN <j>] [REL <i0>]`
   * `kⱼ` (one hex digit) describes level j of a directory chain `B/c`, `B/c/d`, `B/c/d/d`, …
     (`B` stands for the temp directory the harness builds the chain in, taken as one component below `/`):
     `kⱼ = 4·s + o`, `s` = 0 no spokfile | 1 regular file `spokfile` | 2 directory `spokfile`,
@@ -69,19 +69,32 @@ def parseObs (s : String) : FindObs :=
   | ["HANG"] => .hang
   | _ => .err
 
+def optNum (ws : List String) (key : String) : Option Nat :=
+  match ws with
+  | k :: v :: rest => if k == key then v.toNat? else optNum rest key
+  | _ => none
+
 def handle (line : String) : String :=
   match line.splitOn " | " with
   | [inp, impl] =>
     match (inp.splitOn " ").filter (· ≠ "") with
-    | ["L", ks, "S", i, "T", st] =>
+    -- `LN <j>` (level j is a symbolic link) does not concern the model: a path is climbed component by component
+    | "L" :: ks :: "S" :: i :: "T" :: st :: opts =>
       match ks.toList.mapM hexVal, i.toNat?, parseStop st with
       | some ks, some i, some stop =>
         let fs := mkFS ks stop
         let start := levelDir i
         let sd := stopDir stop
-        let m := FindObs.ofResult (find fs start sd)
-        let v := if c17 fs start sd (parseObs impl.trimAscii.toString) then "ok" else "FAIL"
-        s!"RES {resStr m} || C17={v}"
+        match optNum opts "REL" with
+        | some i0 =>
+          let cwd := levelDir i0
+          let m := FindObs.ofResult (relSpec fs cwd start)
+          let v := if c17rel fs cwd start (parseObs impl.trimAscii.toString) then "ok" else "FAIL"
+          s!"RES {resStr m} || C17={v}"
+        | none =>
+          let m := FindObs.ofResult (find fs start sd)
+          let v := if c17 fs start sd (parseObs impl.trimAscii.toString) then "ok" else "FAIL"
+          s!"RES {resStr m} || C17={v}"
       | _, _, _ => "BAD-CASE || C17=FAIL"
     | _ => "BAD-CASE || C17=FAIL"
   | _ => "BAD-LINE || C17=FAIL"
